@@ -11,6 +11,7 @@ import (
 
 	"verif/sim/kernel"
 	"verif/sim/simdb"
+	"verif/sim/txgen"
 )
 
 // ---------------------------------------------------------------- restart
@@ -288,7 +289,14 @@ var ByzKinds = []string{"dup-in-block", "replay-earlier", "nonce-gap", "reorder"
 	// (account -> hidden) transaction, and mixed with plain transfers
 	"fund-future-only", "fund-nonce-gap", "fund-reorder", "fund-stale", "fund-dup-in-block", "fund-replay-earlier", "fund-gap-after-transfer", "transfer-gap-after-fund",
 	// several inputs of which one is already spent on chain
-	"ki-multi-one-spent"}
+	"ki-multi-one-spent",
+	// transactions that are included but FAIL in execution consume their nonce
+	// like any other: replayed from an earlier block, twice in one block
+	"replay-failed", "dup-failing-in-block", "dup-failing-create-in-block",
+	// key images with a small-order (torsion) component: alone, and in pairs
+	// whose components cancel in the sum; of fresh outputs and of an output
+	// that is already spent under its honest key image
+	"ki-torsion-single", "ki-torsion-order4-single", "ki-torsion-cancel-fresh", "ki-torsion-cancel-respend"}
 
 func (e *Engine) richUser(pick int) *User {
 	for i := range e.W.Users {
@@ -359,6 +367,44 @@ func (e *Engine) ByzBlock(kind string, t *kernel.Tape) string {
 			} else {
 				txs = append(base, old)
 			}
+		}
+	case "replay-failed":
+		if len(e.failed) > 0 {
+			old := CopyTx(e.failed[pick%len(e.failed)])
+			if pick%2 == 0 {
+				txs = append(types.Txs{old}, base...)
+			} else {
+				txs = append(base, old)
+			}
+		}
+	case "dup-failing-in-block", "dup-failing-create-in-block":
+		for i := range e.W.Users {
+			u := e.W.Users[(pick+i)%len(e.W.Users)]
+			rem := e.remaining(u.Addr)
+			next := e.committedNonce(u.Addr) + uint64(len(e.offeredBy[u.Addr]))
+			var f *types.Transaction
+			if kind == "dup-failing-in-block" {
+				if rem.Sign() <= 0 {
+					continue
+				}
+				f = u.Transfer(next, e.W.Sinks[pick%len(e.W.Sinks)], new(big.Int).Add(new(big.Int).Mul(e.W.Led.Get(u.Addr).Balance, big.NewInt(2)), big.NewInt(1e18)), 0, nil)
+				if rem.Cmp(new(big.Int).Mul(new(big.Int).SetUint64(f.Gas()), f.GasPrice())) < 0 {
+					continue
+				}
+			} else {
+				// twice the gas: both copies can buy it
+				if rem.Cmp(new(big.Int).Mul(big.NewInt(2*gasCreateFail), GasPrice)) < 0 {
+					continue
+				}
+				e.codeVariant++
+				f = signedTx(u, types.NewContractCreation(next, big.NewInt(0), gasCreateFail, nil, txgen.FailingCreationCode(pick%3, byte(e.codeVariant))))
+			}
+			if pick%2 == 0 {
+				txs = append(base, f, CopyTx(f))
+			} else {
+				txs = append(base, f, u.Transfer(next+1, e.W.Sinks[0], big.NewInt(int64(1000+pick%50)), 0, nil), CopyTx(f))
+			}
+			break
 		}
 	case "nonce-gap":
 		if u := e.richUser(pick); u != nil {
@@ -481,6 +527,10 @@ func (e *Engine) ByzBlock(kind string, t *kernel.Tape) string {
 			if txs != nil {
 				break
 			}
+		}
+	case "ki-torsion-single", "ki-torsion-order4-single", "ki-torsion-cancel-fresh", "ki-torsion-cancel-respend":
+		if tx := e.torsionSpend(kind, pick); tx != nil {
+			txs = append(base, tx)
 		}
 	case "ki-two-txs", "ki-dup-in-tx":
 		if e.U == nil {
@@ -672,4 +722,99 @@ func (e *Engine) WithdrawBlock(t *kernel.Tape) string {
 	e.ByzBlock("ki-later", t)
 	e.byzTarget = nil
 	return fmt.Sprintf("withdraw-all +%d blocks restart=%v", after, restart)
+}
+
+// torsionSpend builds a short-ring spend whose key images carry a small-order
+// component. For the pair kinds the twist is the order-2 point on both inputs
+// (the components cancel in the sum); the signatures are regenerated a few
+// times because a ring signature over a twisted image verifies only when its
+// challenge happens to kill the component. Every candidate is shown to the
+// node's basic check and, if that lets it pass, to the mempool (must refuse);
+// the last candidate (or the first admitted one) goes into the Byzantine block.
+func (e *Engine) torsionSpend(kind string, pick int) types.Tx {
+	us := e.U
+	if us == nil {
+		return nil
+	}
+	unspent := e.unspent()
+	var ins []*Owned
+	twist := torsion2
+	attempts := 1
+	switch kind {
+	case "ki-torsion-single", "ki-torsion-order4-single":
+		if len(unspent) == 0 {
+			return nil
+		}
+		ins = []*Owned{unspent[pick%len(unspent)]}
+		if kind == "ki-torsion-order4-single" {
+			twist = torsion4
+		}
+		attempts = 2
+	case "ki-torsion-cancel-fresh":
+		for _, a := range unspent {
+			for _, b := range unspent {
+				if a != b && a.Wallet == b.Wallet && ins == nil {
+					ins = []*Owned{a, b}
+				}
+			}
+		}
+		attempts = 6
+	case "ki-torsion-cancel-respend":
+		for _, sp := range e.SpentOutputs() {
+			for _, b := range unspent {
+				if b.Wallet == sp.Wallet && ins == nil {
+					ins = []*Owned{sp, b}
+					if pick%2 == 0 {
+						ins = []*Owned{b, sp}
+					}
+				}
+			}
+		}
+		attempts = 8
+	}
+	if ins == nil {
+		return nil
+	}
+	sum := new(big.Int)
+	for _, o := range ins {
+		sum.Add(sum, o.Amount)
+	}
+	pay := new(big.Int).Sub(sum, us.FeeUU)
+	pay.Sub(pay, lkCoins(int64(1+pick%5)))
+	if pay.Cmp(lkCoins(1)) < 0 {
+		return nil
+	}
+	var last types.Tx
+	for i := 0; i < attempts; i++ {
+		e.twist = &twist
+		tx, err := e.SpendTx(us.Wallets[ins[0].Wallet], ins, 1, pay, us.Wallets[(pick+i)%len(us.Wallets)], nil, pick)
+		e.twist = nil
+		if err != nil {
+			e.C.Probe("torsion-not-constructible")
+			return last
+		}
+		last = tx
+		var berr error
+		e.W.Chain.RegisterRate()
+		if site, msg, p := kernel.Try(func() { berr = e.W.Chain.App.CheckTx(CopyTx(tx), true) }); p {
+			e.Violate("panic", "panic/"+site, "the basic check panicked on a transaction with a twisted key image: %s", msg)
+			return nil
+		}
+		e.C.Evals(1)
+		if berr != nil {
+			continue
+		}
+		// the basic check let it pass: the mempool is the next boundary
+		e.C.Probe("torsion-passed-basic-check")
+		m := e.record(nil, tx, "kitorsion")
+		m.Ins = ins
+		sub := e.Submit(m, false, false)
+		e.W.Finish(sub)
+		e.collect()
+		if e.Stopped() {
+			return nil
+		}
+		return tx
+	}
+	return last
 }
